@@ -16,7 +16,8 @@ PROPERTY_ID = "C19"
 RULE = (
     "Exhaustive: one Integer field whose rule 'lo...hi' takes both limits from the boundary set {+-(2^k + d)}, "
     "k in {7,8,15,16,31,32,63}, d in -2..1, plus 0, +-1 - all 1770 ordered pairs lo <= hi x the four dialects "
-    "(thorough: also spelled as two items 'lo, hi'). Hypothesis: CIDs (delimited or fixed) of 1-6 fields x dialect; "
+    "(thorough: also spelled as two items 'lo, hi'). Hypothesis: CIDs (delimited or fixed) of 1-6 fields, with or "
+    "without IsUnique / DistinctCount checks over them, x dialect; "
     "names are dialect keywords in lower / upper / mixed case, near-keywords (keyword with a prefix or suffix) or "
     "plain identifiers; types Integer (closed rule of 1-2 items in decimal or hex, open rule, length only, neither), "
     "Decimal (no rule, closed rule of 1-2 items with 0-4 fractional digits, open rule), Text / Choice / Constant / "
@@ -223,6 +224,7 @@ def cid_rows(case):
     rows = [["D", "Format", case["format"]]]
     for f in case["fields"]:
         rows.append(["F", f["name"], "", f["empty"], f["length"], f["type"], f["rule"]])
+    rows.extend(list(row) for row in case.get("checks", []))
     return rows
 
 
@@ -686,7 +688,17 @@ def cid_cases(draw):
         field.update({"name": name, "name_kind": name_kind, "empty": empty})
         fields.append(field)
     table = draw(st.sampled_from(["t", "customers", "Some_Table1"]))
-    return {"dialect": dialect_name, "format": fmt, "table": table, "fields": fields}
+    # whole-file checks say nothing about single columns: with or without them the statement is the same
+    checks = []
+    if draw(st.booleans()):
+        keys = draw(st.lists(st.sampled_from([f["name"] for f in fields]), min_size=1, max_size=3, unique=True))
+        checks.append(["C", "keys are unique", "IsUnique", ", ".join(keys)])
+    if draw(st.integers(0, 2)) == 0:
+        checks.append(["C", "few values", "DistinctCount", "%s <= %d" % (
+            draw(st.sampled_from([f["name"] for f in fields])), draw(st.integers(1, 9)))])
+    if checks and draw(st.booleans()):
+        checks.reverse()
+    return {"dialect": dialect_name, "format": fmt, "table": table, "fields": fields, "checks": checks}
 
 
 def _one(dialect_name, name, empty, length, type_name, rule, expect, fmt="Delimited", mode="corpus"):
